@@ -321,9 +321,10 @@ def run(pid, tier, seed, t0):
     if server_errors:
         vlib.log("server errors (informative): %s" % server_errors[:5])
     conn_info = __import__("x_conninfo").stage(pid, tier, seed, verdict)   # ConnInfo.tla: every request carries its own connection's info
+    upgrade = __import__("x_upgrade").stage(pid, tier, seed, verdict)   # Upgrade.tla: U3/U5, matching around upgrades, upgrade futures resolve
     body = __import__("x_body").stage(pid, tier, seed, verdict)   # Body.tla: frames, end-of-stream, size hints, end-to-end framing
     code, unlisted = verdict.finish()
-    coverage = {"body_model": body, "conn_info_model": conn_info,
+    coverage = {"body_model": body, "upgrade_model": upgrade, "conn_info_model": conn_info,
         "evaluations": counts.get("requests", 0),
         "distinct_nontrivial": totals["nontrivial"],
         "rule": ("seeded random runs of the real client/server: per run 2-6 origins (own server each: auto/http1/http2 over "
@@ -376,6 +377,8 @@ def replay(pid, path):
     obj = json.load(open(path))
     if isinstance(obj.get("replay"), dict) and obj["replay"].get("kind") == "conninfo-trace":
         return __import__("x_conninfo").replay(pid, obj)
+    if isinstance(obj.get("replay"), dict) and obj["replay"].get("kind") == "upgrade-scenario":
+        return __import__("x_upgrade").replay(pid, obj)
     if isinstance(obj.get("replay"), dict) and obj["replay"].get("kind") == "body-ops":
         return __import__("x_body").replay(pid, obj)
     rp = obj["replay"]
